@@ -42,5 +42,6 @@ RULE += ' 8% of the cases use plain integer weights (1, 2, 0).'
 RULE += ' Every returned target portfolio is overwritten by the caller (quantity 250 everywhere) before the sizer is used again; in a third of the percentage-fee cases the fee model object gets its rates only after the broker was built with it.'
 RULE += ' 40% of the later calls of a long-only sizer follow a re-assignment of sizer.cash_buffer_percentage (documented as modifiable), which stays in force.'
 RULE += ' Round 11: after the sizer has served a later instant it is asked again inside the leading gap (must raise again); two CSV sources over one directory restricted to symbol lists (one often empty): an asset given to no source is rejected, the others are sized at the price of the source they were given to.'
+RULE += ' Round 12: the unserved file of the partition check is named CC, AAX or BB.L (its name may begin with a served symbol).'
 ASSUMPTIONS = ['total fee rate <= 100% (above it every after-fee budget is negative)',
                'weights whose sum is within 1e-8 of zero are used unscaled, as the code documents']
